@@ -4,4 +4,5 @@ Extraction Language OCaml.
 Extraction "C08_m.ml" construct construct2 interpolate derivative interpolate2 locate
   set_prefactor multiply integrate local_minimum local_maximum global_minimum global_maximum
   set_prefactor2 multiply2 global_minimum2 global_maximum2
-  construct_rows construct_default construct2_default construct2_table Z.of_nat Z.to_nat.
+  construct_rows construct_default construct2_default construct2_table
+  integrate_loop knot_scan skeleton lstep st_get Z.of_nat Z.to_nat.
